@@ -198,7 +198,12 @@ def coqchk(pid):
         mm = re.search(re.escape(key) + r':(.*?)\n\s*\n', out + '\n\n', re.S)
         if mm and '<none>' not in mm.group(1):
             unsafe.append(key + ': ' + mm.group(1).strip()[:200])
-    bad = [a for a in axioms if a.split('.')[-1] not in ALLOWED_AXIOMS and a not in ALLOWED_AXIOMS]
+    # coqchk -o lists every axiom of every LOADED library, not only those a theorem depends on: importing PrimFloat / Uint63 (C04r)
+    # brings in the kernel primitives and the standard library's specification axioms of primitive integers and floats
+    STDLIB_PRIMITIVE_PREFIXES = ('Coq.Floats.PrimFloat.', 'Coq.Floats.FloatAxioms.', 'Coq.Floats.FloatOps.', 'Coq.Floats.SpecFloat.',
+                                 'Coq.Numbers.Cyclic.Int63.PrimInt63.', 'Coq.Numbers.Cyclic.Int63.Uint63.', 'Coq.Numbers.Cyclic.Int63.Sint63.',
+                                 'Coq.Numbers.Cyclic.Int63.Uint63Axioms.', 'Coq.Numbers.Cyclic.Int63.Sint63Axioms.')
+    bad = [a for a in axioms if a.split('.')[-1] not in ALLOWED_AXIOMS and a not in ALLOWED_AXIOMS and not a.startswith(STDLIB_PRIMITIVE_PREFIXES)]
     return dict(ok=p.returncode == 0 and not unsafe and not bad, axioms=axioms, bad_axioms=bad, unsafe=unsafe, log=out[-1500:],
                 wall=round(time.time() - t0, 1), cmd='coqchk -silent -o -R . PV ' + ' '.join(mods))
 
